@@ -232,4 +232,668 @@ theorem wf_run (s : State) (ops : List Op) (h : WF s) : WF (run s ops) := by
 theorem wf_reachable (bank : Bank) (p : Params) (env : Env) (ops : List Op) :
     WF (run (genesis bank p env) ops) := wf_run _ ops (wf_genesis bank p env)
 
+/-! #### never rebound -/
+
+/-- how an accepted operation may change the token table: not at all, by replacing one token
+with one of the same identity (and the same owner unless the operation is that owner's
+hand-over), or by adding a token whose symbol and min unit are both new -/
+inductive Change (s s' : State) (op : Op) : Prop
+  | same (e1 : ∀ k, AMap.get? s'.tokens k = AMap.get? s.tokens k)
+         (e2 : ∀ k, AMap.get? s'.minUnits k = AMap.get? s.minUnits k)
+  | modify (sym : String) (t t' : Token) (ht : AMap.get? s.tokens sym = some t)
+         (hsym : t'.symbol = t.symbol) (hmu : t'.minUnit = t.minUnit) (hsc : t'.scale = t.scale)
+         (hown : t'.owner = t.owner ∨ ∃ dst, op = .transferOwner t.owner dst sym ∧ t'.owner = dst)
+         (e1 : ∀ k, AMap.get? s'.tokens k = if sym = k then some t' else AMap.get? s.tokens k)
+         (e2 : ∀ k, AMap.get? s'.minUnits k = AMap.get? s.minUnits k)
+  | add (t : Token) (hn1 : AMap.get? s.tokens t.symbol = none) (hn2 : AMap.get? s.minUnits t.minUnit = none)
+         (e1 : ∀ k, AMap.get? s'.tokens k = if t.symbol = k then some t else AMap.get? s.tokens k)
+         (e2 : ∀ k, AMap.get? s'.minUnits k = if t.minUnit = k then some t.symbol else AMap.get? s.minUnits k)
+
+theorem change_step (s s' : State) (op : Op) (h : WF s) (hs : step s op = .ok s') : Change s s' op := by
+  cases op with
+  | issue owner symbol name minUnit scale init max mintable =>
+    obtain ⟨_, _, s1, h1, hc1, hc2, rfl⟩ := issue_ok hs
+    obtain ⟨d, n, tax, b', _, _, _, rfl⟩ := deductFee_ok h1
+    exact .add (issuedToken owner symbol name minUnit scale init max mintable)
+      (contains_false hc1) (contains_false hc2) (fun k => get?_set _ _ _ _) (fun k => get?_set _ _ _ _)
+  | edit owner symbol name max mintable =>
+    obtain ⟨t, ht, _, _, rfl⟩ := edit_ok hs
+    exact .modify symbol t (edited t name max mintable) ht rfl rfl rfl (Or.inl rfl)
+      (fun k => get?_set _ _ _ _) (fun _ => rfl)
+  | mint owner to denom amount =>
+    obtain ⟨_, _, sym, s1, _, h1, h2⟩ := mint_ok hs
+    obtain ⟨_, _, _, _, _, _, _, rfl⟩ := deductFee_ok h1
+    obtain ⟨_, _, _, _, _, rfl⟩ := mintChecked_ok h2
+    exact .same (fun _ => rfl) (fun _ => rfl)
+  | burn sender denom amount =>
+    obtain ⟨_, _, b, _, rfl⟩ := burn_step_ok hs
+    exact .same (fun _ => rfl) (fun _ => rfl)
+  | transferOwner src dst symbol =>
+    obtain ⟨_, t, ht, ho, rfl⟩ := transferOwner_ok hs
+    exact .modify symbol t { t with owner := dst } ht rfl rfl rfl (Or.inr ⟨dst, by rw [ho], rfl⟩)
+      (fun k => get?_set _ _ _ _) (fun _ => rfl)
+  | swapFee sender to denom amount =>
+    obtain ⟨_, tb, target, ratio, tm, b, m, _, _, _, _, h2⟩ := swapFee_ok hs
+    obtain ⟨_, _, _, bk, _, rfl⟩ := swapMoves_ok h2
+    exact .same (fun _ => rfl) (fun _ => rfl)
+  | deploy authority name symbol minUnit scale =>
+    obtain ⟨t, hb, hc, rfl⟩ := deploy_ok hs
+    rcases buildErc20_cases h hb with ⟨e1, e2⟩ | ⟨e1, e2, _, _, _⟩
+    · refine .modify t.symbol t { t with contract := s.nonce + 1 } e1 rfl rfl rfl (Or.inl rfl)
+        (fun k => get?_set _ _ _ _) ?_
+      intro k
+      show AMap.get? (AMap.set s.minUnits t.minUnit t.symbol) k = _
+      rw [get?_set]
+      by_cases hk : t.minUnit = k
+      · subst hk; simp [e2]
+      · simp [hk]
+    · exact .add { t with contract := s.nonce + 1 } e1 e2 (fun k => get?_set _ _ _ _) (fun k => get?_set _ _ _ _)
+  | swapToErc20 sender receiver denom amount =>
+    obtain ⟨_, t, b, _, _, _, rfl⟩ := swapTo_ok hs
+    exact .same (fun _ => rfl) (fun _ => rfl)
+  | swapFromErc20 sender receiver denom amount =>
+    obtain ⟨_, _, t, _, _, _, rfl⟩ := swapFrom_ok hs
+    exact .same (fun _ => rfl) (fun _ => rfl)
+  | hookSwap src c to amount =>
+    obtain ⟨_, _, h3⟩ := hook_ok hs
+    rcases h3 with ⟨rfl, _⟩ | ⟨sym, t, _, _, _, _, rfl⟩
+    · exact .same (fun _ => rfl) (fun _ => rfl)
+    · exact .same (fun _ => rfl) (fun _ => rfl)
+  | evmFault mode =>
+    rw [evmFault_ok hs]
+    exact .same (fun _ => rfl) (fun _ => rfl)
+  | updateParams authority p =>
+    rw [(updateParams_ok hs).2]
+    exact .same (fun _ => rfl) (fun _ => rfl)
+
+theorem keeps_refl (s : State) : Keeps s s :=
+  ⟨fun _ t ht => ⟨t, ht, rfl, rfl, rfl⟩, fun _ _ hm => hm⟩
+
+theorem keeps_trans {a b c : State} (h1 : Keeps a b) (h2 : Keeps b c) : Keeps a c := by
+  constructor
+  · intro sym t ht
+    obtain ⟨t1, ht1, a1, a2, a3⟩ := h1.1 sym t ht
+    obtain ⟨t2, ht2, b1, b2, b3⟩ := h2.1 sym t1 ht1
+    exact ⟨t2, ht2, b1.trans a1, b2.trans a2, b3.trans a3⟩
+  · intro m sym hm
+    exact h2.2 m sym (h1.2 m sym hm)
+
+/-- **C09(1d)** one accepted operation never re-binds an identity: every symbol keeps its min
+unit and scale, every min unit keeps its symbol -/
+theorem keeps_step (s s' : State) (op : Op) (h : WF s) (hs : step s op = .ok s') : Keeps s s' := by
+  cases change_step s s' op h hs with
+  | same e1 e2 =>
+    exact ⟨fun sym t ht => ⟨t, by rw [e1]; exact ht, rfl, rfl, rfl⟩, fun m sym hm => by rw [e2]; exact hm⟩
+  | modify sym t t' ht hsym hmu hsc _ e1 e2 =>
+    constructor
+    · intro sym2 t2 ht2
+      by_cases hk : sym = sym2
+      · subst hk
+        rw [ht] at ht2; cases ht2
+        exact ⟨t', by rw [e1]; simp, hsym, hmu, hsc⟩
+      · exact ⟨t2, by rw [e1]; simp [hk, ht2], rfl, rfl, rfl⟩
+    · intro m sym2 hm; rw [e2]; exact hm
+  | add t hn1 hn2 e1 e2 =>
+    constructor
+    · intro sym2 t2 ht2
+      have hk : t.symbol ≠ sym2 := by intro e; rw [e, ht2] at hn1; cases hn1
+      exact ⟨t2, by rw [e1]; simp [hk, ht2], rfl, rfl, rfl⟩
+    · intro m sym2 hm
+      have hk : t.minUnit ≠ m := by intro e; rw [e, hm] at hn2; cases hn2
+      rw [e2]; simp [hk, hm]
+
+theorem keeps_apply (s : State) (op : Op) (h : WF s) : Keeps s (apply s op) := by
+  unfold apply
+  cases hs : step s op with
+  | ok s' => exact keeps_step s s' op h hs
+  | error e => exact keeps_refl s
+
+/-- **C09(1e)** over every history: an identity once bound is bound forever -/
+theorem never_rebound_run (s : State) (ops : List Op) (h : WF s) : Keeps s (run s ops) := by
+  induction ops generalizing s with
+  | nil => exact keeps_refl s
+  | cons op rest ih =>
+    exact keeps_trans (keeps_apply s op h) (ih (apply s op) (wf_apply s op h))
+
+/-- **C09(1f)** issuing a symbol or a min unit that is already bound is rejected -/
+theorem issue_bound_identity_rejected (s : State) (owner symbol name minUnit : String) (scale init max : Nat)
+    (mintable : Bool)
+    (hb : (AMap.get? s.tokens symbol).isSome = true ∨ (AMap.get? s.minUnits minUnit).isSome = true) :
+    ∃ e, step s (.issue owner symbol name minUnit scale init max mintable) = .error e := by
+  cases hs : step s (.issue owner symbol name minUnit scale init max mintable) with
+  | error e => exact ⟨e, rfl⟩
+  | ok s' =>
+    exfalso
+    obtain ⟨_, _, s1, h1, hc1, hc2, _⟩ := issue_ok hs
+    obtain ⟨_, _, _, _, _, _, _, rfl⟩ := deductFee_ok h1
+    have c1 := contains_false hc1
+    have c2 := contains_false hc2
+    simp only at c1 c2
+    rcases hb with hb | hb
+    · rw [c1] at hb; cases hb
+    · rw [c2] at hb; cases hb
+
+/-! ### 2. Authority: only the current owner edits, mints or hands over -/
+
+/-- **C09(2a)** an accepted edit was sent by the current owner -/
+theorem edit_only_owner (s s' : State) (owner symbol name : String) (max : Nat) (mintable : String)
+    (h : step s (.edit owner symbol name max mintable) = .ok s') : ownerOf s symbol = some owner := by
+  obtain ⟨t, ht, ho, _, _⟩ := edit_ok h
+  simp [ownerOf, ht, ho]
+
+/-- **C09(2b)** an accepted mint was sent by the current owner of a mintable token -/
+theorem mint_only_owner_and_mintable (s s' : State) (owner to denom : String) (amount : Int)
+    (h : step s (.mint owner to denom amount) = .ok s') :
+    ∃ t, tokenByMinUnit s denom = some t ∧ t.owner = owner ∧ t.mintable = true := by
+  obtain ⟨_, _, sym, s1, _, h1, h2⟩ := mint_ok h
+  obtain ⟨_, _, _, _, _, _, _, rfl⟩ := deductFee_ok h1
+  obtain ⟨t, ht, ho, hm, _, _⟩ := mintChecked_ok h2
+  exact ⟨t, ht, ho.symm, hm⟩
+
+/-- **C09(2c)** an accepted hand-over was sent by the current owner and makes the recipient the owner -/
+theorem transfer_only_owner (s s' : State) (src dst symbol : String)
+    (h : step s (.transferOwner src dst symbol) = .ok s') :
+    ownerOf s symbol = some src ∧ ownerOf s' symbol = some dst := by
+  obtain ⟨_, t, ht, ho, rfl⟩ := transferOwner_ok h
+  exact ⟨by simp [ownerOf, ht, ho], by simp [ownerOf, AMap.get?_set_self]⟩
+
+/-- … so anyone else is rejected, and a rejected message changes nothing -/
+theorem edit_by_stranger_rejected (s : State) (o sender symbol name : String) (max : Nat) (mintable : String)
+    (ho : ownerOf s symbol = some o) (hne : sender ≠ o) :
+    apply s (.edit sender symbol name max mintable) = s := by
+  unfold apply
+  cases hs : step s (.edit sender symbol name max mintable) with
+  | error e => rfl
+  | ok s' =>
+    have := edit_only_owner s s' sender symbol name max mintable hs
+    rw [ho] at this; cases this; exact absurd rfl hne
+
+theorem transfer_by_stranger_rejected (s : State) (o sender dst symbol : String)
+    (ho : ownerOf s symbol = some o) (hne : sender ≠ o) :
+    apply s (.transferOwner sender dst symbol) = s := by
+  unfold apply
+  cases hs : step s (.transferOwner sender dst symbol) with
+  | error e => rfl
+  | ok s' =>
+    have := (transfer_only_owner s s' sender dst symbol hs).1
+    rw [ho] at this; cases this; exact absurd rfl hne
+
+theorem mint_by_stranger_or_unmintable_rejected (s : State) (t : Token) (sender to denom : String) (amount : Int)
+    (ht : tokenByMinUnit s denom = some t) (hne : sender ≠ t.owner ∨ t.mintable = false) :
+    apply s (.mint sender to denom amount) = s := by
+  unfold apply
+  cases hs : step s (.mint sender to denom amount) with
+  | error e => rfl
+  | ok s' =>
+    obtain ⟨t', ht', ho, hm⟩ := mint_only_owner_and_mintable s s' sender to denom amount hs
+    rw [ht] at ht'; cases ht'
+    rcases hne with hne | hne
+    · exact absurd ho.symm hne
+    · rw [hm] at hne; cases hne
+
+theorem rejected_unchanged (s : State) (op : Op) (e : Err) (h : step s op = .error e) : apply s op = s := by
+  unfold apply; rw [h]
+
+/-- **C09(2d)** authority follows ownership: the owner of an existing token changes only by a
+hand-over sent by the current owner, to the recipient it names -/
+theorem owner_changes_only_by_transfer (s : State) (op : Op) (h : WF s) (sym : String) (t t' : Token)
+    (ht : AMap.get? s.tokens sym = some t) (ht' : AMap.get? (apply s op).tokens sym = some t')
+    (hne : t'.owner ≠ t.owner) : ∃ dst, op = .transferOwner t.owner dst sym ∧ t'.owner = dst := by
+  unfold apply at ht'
+  cases hs : step s op with
+  | error e => rw [hs] at ht'; simp only at ht'; rw [ht] at ht'; cases ht'; exact absurd rfl hne
+  | ok s' =>
+    rw [hs] at ht'
+    simp only at ht'
+    cases change_step s s' op h hs with
+    | same e1 _ => rw [e1, ht] at ht'; cases ht'; exact absurd rfl hne
+    | modify sym2 t2 t2' ht2 _ _ _ hown e1 _ =>
+      rw [e1] at ht'
+      by_cases hk : sym2 = sym
+      · subst hk
+        simp only [if_true, Option.some.injEq] at ht'
+        subst ht'
+        rw [ht] at ht2; cases ht2
+        rcases hown with ho | ho
+        · exact absurd ho hne
+        · exact ho
+      · simp only [hk, if_false] at ht'
+        rw [ht] at ht'; cases ht'; exact absurd rfl hne
+    | add t2 hn1 _ e1 _ =>
+      rw [e1] at ht'
+      have hk : t2.symbol ≠ sym := by intro e; rw [e, ht] at hn1; cases hn1
+      simp only [hk, if_false] at ht'
+      rw [ht] at ht'; cases ht'; exact absurd rfl hne
+
+/-! ### 3. The circulating amount never exceeds the declared maximum -/
+
+/-- the invariant of C09's supply clause: consistent identities, every token within its cap,
+and no unregistered denomination in circulation -/
+structure Good (s : State) : Prop where
+  wf  : WF s
+  cap : CapInv s
+  reg : SupplyReg s
+
+/-- a change that keeps the tables and does not raise any supply keeps the invariant -/
+theorem good_of_supply_le {s s' : State} (h : Good s) (e1 : s'.tokens = s.tokens) (e2 : s'.minUnits = s.minUnits)
+    (hle : ∀ d, supplyOf s' d ≤ supplyOf s d) : Good s' where
+  wf := wf_of_lookups h.wf (fun _ => by rw [e1]) (fun _ => by rw [e2])
+  cap := by
+    intro sym t ht
+    rw [e1] at ht
+    exact Nat.le_trans (hle _) (h.cap sym t ht)
+  reg := by
+    intro d hd
+    rw [e2]
+    exact h.reg d (Nat.lt_of_lt_of_le hd (hle d))
+
+theorem good_deductFee {s s1 : State} {payer fee} (h : Good s) (h1 : deductFee s payer fee = .ok s1) : Good s1 := by
+  obtain ⟨d, n, tax, b', _, _, he, rfl⟩ := deductFee_ok h1
+  exact good_of_supply_le h rfl rfl (fun d' => he.sup_le d')
+
+theorem issueValid_init_le {owner symbol name minUnit : String} {scale init max : Nat} {mintable : Bool}
+    (h : issueValid owner symbol name minUnit scale init max mintable = true) :
+    init ≤ defaultMax init max mintable := by
+  unfold issueValid at h
+  simp only [Bool.and_eq_true, decide_eq_true_eq] at h
+  exact h.1.2
+
+/-- **C09(3a)** one accepted issue / edit / mint / burn / hand-over keeps every token within its
+cap — provided the edit does not fall into the class of F-tok-1 (a new maximum while the
+circulating amount is not a whole number of main units) -/
+theorem good_step_partial (s s' : State) (op : Op) (h : Good s) (hop : isC09Op op = true)
+    (hf : inFTok1 s op = false) (hs : step s op = .ok s') : Good s' := by
+  have hwf' := wf_step s s' op h.wf hs
+  cases op with
+  | issue owner symbol name minUnit scale init max mintable =>
+    obtain ⟨hv, _, s1, h1, hc1, hc2, rfl⟩ := issue_ok hs
+    have g1 := good_deductFee h h1
+    have c1 := contains_false hc1
+    have c2 := contains_false hc2
+    have hz : s1.bank.supplyOf minUnit = 0 := by
+      cases hz : s1.bank.supplyOf minUnit with
+      | zero => rfl
+      | succ k =>
+        have := g1.reg minUnit (by unfold supplyOf; omega)
+        rw [c2] at this; cases this
+    refine ⟨hwf', ?_, ?_⟩
+    · intro sym2 t2 ht2
+      simp only [addIssued, issuedToken] at ht2 ⊢
+      rw [get?_set] at ht2
+      by_cases hk : symbol = sym2
+      · simp only [hk, if_true, Option.some.injEq] at ht2
+        subst ht2
+        simp only [supplyOf]
+        rw [supplyOf_mint_self, hz, Nat.zero_add]
+        exact Nat.mul_le_mul_right _ (issueValid_init_le hv)
+      · simp only [hk, if_false] at ht2
+        have hm2 := (g1.wf.1 sym2 t2 ht2).2
+        have hne : minUnit ≠ t2.minUnit := by intro e; rw [← e, c2] at hm2; cases hm2
+        simp only [supplyOf]
+        rw [supplyOf_mint_other _ _ _ _ _ hne]
+        exact g1.cap sym2 t2 ht2
+    · intro d hd
+      simp only [addIssued, issuedToken, supplyOf] at hd ⊢
+      rw [get?_set]
+      by_cases hk : minUnit = d
+      · simp [hk]
+      · simp only [hk, if_false]
+        rw [supplyOf_mint_other _ _ _ _ _ hk] at hd
+        exact g1.reg d hd
+  | edit owner symbol name max mintable =>
+    obtain ⟨t, ht, _, hm, rfl⟩ := edit_ok hs
+    refine ⟨hwf', ?_, h.reg⟩
+    intro sym2 t2 ht2
+    simp only at ht2
+    rw [get?_set] at ht2
+    by_cases hk : symbol = sym2
+    · simp only [hk, if_true, Option.some.injEq] at ht2
+      subst ht2
+      have hcap := h.cap symbol t ht
+      show supplyOf s t.minUnit ≤ (if 0 < max then max else t.maxSupply) * pow10 t.scale
+      by_cases hmax : 0 < max
+      · simp only [hmax, if_true]
+        simp only [inFTok1, tokenBySymbol, ht, hmax, decide_true, Bool.true_and, decide_eq_false_iff_not,
+          Decidable.not_not] at hf
+        have hq : supplyOf s t.minUnit / pow10 t.scale ≤ max := by
+          have : ¬ (max < supplyOf s t.minUnit / pow10 t.scale) := fun hc => hm ⟨hmax, hc⟩
+          omega
+        have hdm := Nat.div_add_mod (supplyOf s t.minUnit) (pow10 t.scale)
+        rw [hf, Nat.add_zero] at hdm
+        rw [← hdm, Nat.mul_comm]
+        exact Nat.mul_le_mul_right _ hq
+      · simp only [hmax, if_false]; exact hcap
+    · simp only [hk, if_false] at ht2
+      exact h.cap sym2 t2 ht2
+  | mint owner to denom amount =>
+    obtain ⟨_, _, sym, s1, _, h1, h2⟩ := mint_ok hs
+    have g1 := good_deductFee h h1
+    obtain ⟨t, ht, _, _, hroom, rfl⟩ := mintChecked_ok h2
+    obtain ⟨emu, etok, eidx⟩ := tokenByMinUnit_wf g1.wf ht
+    refine ⟨hwf', ?_, ?_⟩
+    · intro sym2 t2 ht2
+      simp only at ht2
+      simp only [supplyOf]
+      by_cases hk : denom = t2.minUnit
+      · have := (minUnit_identifies_one_token g1.wf etok ht2 (by rw [emu, hk])).2
+        subst this
+        rw [← hk, supplyOf_mint_self]
+        rw [emu] at hroom
+        exact hroom
+      · rw [supplyOf_mint_other _ _ _ _ _ hk]
+        exact g1.cap sym2 t2 ht2
+    · intro d hd
+      simp only [supplyOf] at hd ⊢
+      by_cases hk : denom = d
+      · subst hk; simp [eidx]
+      · rw [supplyOf_mint_other _ _ _ _ _ hk] at hd
+        exact g1.reg d hd
+  | burn sender denom amount =>
+    obtain ⟨_, _, b, hb, rfl⟩ := burn_step_ok hs
+    obtain ⟨_, _, e3, _, e5⟩ := burn_ok hb
+    refine good_of_supply_le h rfl rfl ?_
+    intro d
+    simp only [supplyOf]
+    by_cases hk : denom = d
+    · subst hk; rw [e3]; omega
+    · rw [e5 d hk]; exact Nat.le_refl _
+  | transferOwner src dst symbol =>
+    obtain ⟨_, t, ht, _, rfl⟩ := transferOwner_ok hs
+    refine ⟨hwf', ?_, h.reg⟩
+    intro sym2 t2 ht2
+    simp only at ht2
+    rw [get?_set] at ht2
+    by_cases hk : symbol = sym2
+    · simp only [hk, if_true, Option.some.injEq] at ht2
+      subst ht2
+      exact h.cap symbol t ht
+    · simp only [hk, if_false] at ht2
+      exact h.cap sym2 t2 ht2
+  | swapFee _ _ _ _ => cases hop
+  | deploy _ _ _ _ _ => cases hop
+  | swapToErc20 _ _ _ _ => cases hop
+  | swapFromErc20 _ _ _ _ => cases hop
+  | hookSwap _ _ _ _ => cases hop
+  | evmFault _ => cases hop
+  | updateParams _ _ => cases hop
+
+theorem good_apply_partial (s : State) (op : Op) (h : Good s) (hop : isC09Op op = true)
+    (hf : inFTok1 s op = false) : Good (apply s op) := by
+  unfold apply
+  cases hs : step s op with
+  | ok s' => exact good_step_partial s s' op h hop hf hs
+  | error e => exact h
+
+/-- **C09(3b)** over every history of issue / edit / mint / burn / hand-over by anyone, at every
+scale and amount: every token stays within `maxSupply · 10^scale`, as long as no edit of the
+history falls into the class of F-tok-1 -/
+theorem cap_run_partial (s : State) (ops : List Op) (h : Good s) (hops : ∀ op ∈ ops, isC09Op op = true)
+    (hf : noFTok1 s ops) : Good (run s ops) := by
+  induction ops generalizing s with
+  | nil => exact h
+  | cons op rest ih =>
+    exact ih (apply s op) (good_apply_partial s op h (hops op (List.mem_cons_self ..)) hf.1)
+      (fun o ho => hops o (List.mem_cons_of_mem _ ho)) hf.2
+
+/-- a genesis whose only circulating denomination is the native token, within its cap -/
+theorem good_genesis (bank : Bank) (p : Params) (env : Env)
+    (h1 : ∀ d, d ≠ "stake" → bank.supplyOf d = 0) (h2 : bank.supplyOf "stake" ≤ 10000000000) :
+    Good (genesis bank p env) where
+  wf := wf_genesis bank p env
+  cap := by
+    intro sym t ht
+    simp only [genesis, AMap.get?] at ht
+    split at ht
+    · cases ht
+      simp only [nativeToken, supplyOf, genesis, pow10]
+      omega
+    · cases ht
+  reg := by
+    intro d hd
+    by_cases hk : d = "stake"
+    · subst hk; simp [genesis, AMap.get?]
+    · simp only [supplyOf, genesis] at hd
+      rw [h1 d hk] at hd; cases hd
+
+/-- the full statement of the supply clause -/
+def CapAlways : Prop :=
+  ∀ (s : State) (ops : List Op), Good s → (∀ op ∈ ops, isC09Op op = true) → CapInv (run s ops)
+
+/-- the witness of F-tok-1: issue 2.0 (scale 1), burn 0.5, then set the maximum to 1 -/
+def witnessState : State :=
+  genesis { bal := [(("A0", "stake"), 100000)], supply := [("stake", 100000)] } {} {}
+
+def witnessOps : List Op :=
+  [.issue "A0" "abc" "n1" "uabc" 1 2 2 false, .burn "A0" "uabc" 5, .edit "A0" "abc" "[do-not-modify]" 1 ""]
+
+theorem witness_outcome :
+    supplyOf (run witnessState witnessOps) "uabc" = 15 ∧
+    (AMap.get? (run witnessState witnessOps).tokens "abc").map (fun t => (t.minUnit, t.maxSupply, t.scale))
+      = some ("uabc", 1, 1) := by
+  decide +kernel
+
+/-- **F-tok-1** the full statement is false of the code: after issue 2, burn 0.5, the edit
+`maxSupply := 1` is accepted with 1.5 circulating -/
+theorem not_CapAlways : ¬ CapAlways := by
+  intro hall
+  have hg : Good witnessState := good_genesis _ _ _
+    (by intro d hd; simp [Bank.supplyOf, AMap.getD, AMap.get?, Ne.symm hd])
+    (by decide)
+  have hc := hall witnessState witnessOps hg (by intro op hop; simp [witnessOps] at hop; rcases hop with rfl | rfl | rfl <;> rfl)
+  obtain ⟨h1, h2⟩ := witness_outcome
+  cases ht : AMap.get? (run witnessState witnessOps).tokens "abc" with
+  | none => rw [ht] at h2; cases h2
+  | some t =>
+    rw [ht] at h2
+    simp only [Option.map, Option.some.injEq, Prod.mk.injEq] at h2
+    have := hc "abc" t ht
+    rw [h2.1, h2.2.1, h2.2.2, h1] at this
+    revert this; decide
+
+/-- "the maximum can never be lowered below what circulates", for one edit -/
+def MaxNeverBelowCirculating : Prop :=
+  ∀ (s s' : State) (owner symbol name : String) (max : Nat) (mintable : String) (t' : Token),
+    step s (.edit owner symbol name max mintable) = .ok s' → 0 < max →
+    AMap.get? s'.tokens symbol = some t' → supplyOf s' t'.minUnit ≤ max * pow10 t'.scale
+
+theorem not_MaxNeverBelowCirculating : ¬ MaxNeverBelowCirculating := by
+  intro hall
+  have h2 : ∃ s1, step (run witnessState (witnessOps.take 2)) (.edit "A0" "abc" "[do-not-modify]" 1 "") = .ok s1 ∧
+      supplyOf s1 "uabc" = 15 ∧
+      (AMap.get? s1.tokens "abc").map (fun t => (t.minUnit, t.scale)) = some ("uabc", 1) := by
+    cases hs : step (run witnessState (witnessOps.take 2)) (.edit "A0" "abc" "[do-not-modify]" 1 "") with
+    | error e =>
+      have : (match step (run witnessState (witnessOps.take 2)) (.edit "A0" "abc" "[do-not-modify]" 1 "") with
+              | .ok _ => true | .error _ => false) = true := by decide +kernel
+      rw [hs] at this; cases this
+    | ok s1 =>
+      refine ⟨s1, rfl, ?_⟩
+      have : (match step (run witnessState (witnessOps.take 2)) (.edit "A0" "abc" "[do-not-modify]" 1 "") with
+              | .ok s1 => decide (supplyOf s1 "uabc" = 15 ∧
+                  (AMap.get? s1.tokens "abc").map (fun t => (t.minUnit, t.scale)) = some ("uabc", 1))
+              | .error _ => false) = true := by decide +kernel
+      rw [hs] at this; exact of_decide_eq_true this
+  obtain ⟨s1, hs, hsup, htok⟩ := h2
+  cases ht : AMap.get? s1.tokens "abc" with
+  | none => rw [ht] at htok; cases htok
+  | some t =>
+    rw [ht] at htok
+    simp only [Option.map, Option.some.injEq, Prod.mk.injEq] at htok
+    have := hall _ s1 "A0" "abc" "[do-not-modify]" 1 "" t hs (by decide) ht
+    rw [htok.1, htok.2, hsup] at this
+    revert this; decide
+
+/-- **C09(3c)** the strongest true form: an accepted edit that sets a maximum leaves the
+circulating amount within it whenever that amount is a whole number of main units -/
+theorem edit_max_partial (s s' : State) (owner symbol name : String) (max : Nat) (mintable : String) (t : Token)
+    (hs : step s (.edit owner symbol name max mintable) = .ok s') (hmax : 0 < max)
+    (ht : AMap.get? s.tokens symbol = some t) (hwhole : supplyOf s t.minUnit % pow10 t.scale = 0) :
+    ∃ t', AMap.get? s'.tokens symbol = some t' ∧ t'.minUnit = t.minUnit ∧ t'.scale = t.scale ∧
+      t'.maxSupply = max ∧ supplyOf s' t'.minUnit ≤ max * pow10 t'.scale := by
+  obtain ⟨t0, ht0, _, hm, rfl⟩ := edit_ok hs
+  rw [ht] at ht0; cases ht0
+  refine ⟨edited t name max mintable, AMap.get?_set_self _ _ _, rfl, rfl, by simp [edited, hmax], ?_⟩
+  show supplyOf s t.minUnit ≤ max * pow10 t.scale
+  have hq : supplyOf s t.minUnit / pow10 t.scale ≤ max := by
+    have : ¬ (max < supplyOf s t.minUnit / pow10 t.scale) := fun hc => hm ⟨hmax, hc⟩
+    omega
+  have hdm := Nat.div_add_mod (supplyOf s t.minUnit) (pow10 t.scale)
+  rw [hwhole, Nat.add_zero] at hdm
+  rw [← hdm, Nat.mul_comm]
+  exact Nat.mul_le_mul_right _ hq
+
+/-! ### 4. Burned amounts are tallied exactly -/
+
+/-- what operation `op`, if accepted, adds to the tally of `d` -/
+def burnAdds (d : String) : Op → Nat
+  | .burn _ denom amount => if denom = d then amount.toNat else 0
+  | _ => 0
+
+/-- **C09(4a)** an accepted burn adds exactly its amount to the tally of its denomination; no
+other operation touches any tally -/
+theorem burned_step (s s' : State) (op : Op) (hs : step s op = .ok s') (d : String) :
+    burnedOf s' d = burnedOf s d + burnAdds d op := by
+  cases op with
+  | issue owner symbol name minUnit scale init max mintable =>
+    obtain ⟨_, _, s1, h1, _, _, rfl⟩ := issue_ok hs
+    obtain ⟨_, _, _, _, _, _, _, rfl⟩ := deductFee_ok h1
+    rfl
+  | edit owner symbol name max mintable =>
+    obtain ⟨t, _, _, _, rfl⟩ := edit_ok hs
+    rfl
+  | mint owner to denom amount =>
+    obtain ⟨_, _, sym, s1, _, h1, h2⟩ := mint_ok hs
+    obtain ⟨_, _, _, _, _, _, _, rfl⟩ := deductFee_ok h1
+    obtain ⟨_, _, _, _, _, rfl⟩ := mintChecked_ok h2
+    rfl
+  | burn sender denom amount =>
+    obtain ⟨_, _, b, _, rfl⟩ := burn_step_ok hs
+    simp only [burnedOf, burnAdds]
+    by_cases hk : denom = d
+    · subst hk; simp [getD_set_self]
+    · simp [hk, getD_set_other _ _ _ _ _ hk]
+  | transferOwner src dst symbol =>
+    obtain ⟨_, t, _, _, rfl⟩ := transferOwner_ok hs
+    rfl
+  | swapFee sender to denom amount =>
+    obtain ⟨_, tb, target, ratio, tm, b, m, _, _, _, _, h2⟩ := swapFee_ok hs
+    obtain ⟨_, _, _, bk, _, rfl⟩ := swapMoves_ok h2
+    rfl
+  | deploy authority name symbol minUnit scale =>
+    obtain ⟨t, _, _, rfl⟩ := deploy_ok hs
+    rfl
+  | swapToErc20 sender receiver denom amount =>
+    obtain ⟨_, t, b, _, _, _, rfl⟩ := swapTo_ok hs
+    rfl
+  | swapFromErc20 sender receiver denom amount =>
+    obtain ⟨_, _, t, _, _, _, rfl⟩ := swapFrom_ok hs
+    rfl
+  | hookSwap src c to amount =>
+    obtain ⟨_, _, h3⟩ := hook_ok hs
+    rcases h3 with ⟨rfl, _⟩ | ⟨sym, t, _, _, _, _, rfl⟩ <;> rfl
+  | evmFault mode => rw [evmFault_ok hs]; rfl
+  | updateParams authority p => rw [(updateParams_ok hs).2]; rfl
+
+theorem burnSum_cons (d : String) (s : State) (op : Op) (rest : List Op) :
+    burnSum d s (op :: rest) =
+      (match step s op with | .ok _ => burnAdds d op | .error _ => 0) + burnSum d (apply s op) rest := by
+  simp only [burnSum]
+  congr 1
+  cases op <;> cases step s _ <;> rfl
+
+/-- **C09(4b)** over every history: the tally of a denomination is what it was plus the sum of
+the accepted burns of that denomination -/
+theorem burned_tally_run (s : State) (ops : List Op) (d : String) :
+    burnedOf (run s ops) d = burnedOf s d + burnSum d s ops := by
+  induction ops generalizing s with
+  | nil => simp [run, burnSum]
+  | cons op rest ih =>
+    show burnedOf (run (apply s op) rest) d = _
+    rw [ih (apply s op), burnSum_cons]
+    unfold apply
+    cases hs : step s op with
+    | ok s' => simp only; rw [burned_step s s' op hs d]; omega
+    | error e => simp
+
+/-- **C09(4c)** an accepted burn takes exactly the amount from the burner and from the supply -/
+theorem burn_exact (s s' : State) (sender denom : String) (amount : Int)
+    (hs : step s (.burn sender denom amount) = .ok s') :
+    0 < amount ∧ amount.toNat ≤ balOf s sender denom ∧
+    balOf s' sender denom = balOf s sender denom - amount.toNat ∧
+    supplyOf s' denom = supplyOf s denom - amount.toNat ∧
+    burnedOf s' denom = burnedOf s denom + amount.toNat ∧
+    (∀ a' d', (sender, denom) ≠ (a', d') → balOf s' a' d' = balOf s a' d') ∧
+    (∀ d', denom ≠ d' → supplyOf s' d' = supplyOf s d') ∧ s'.tokens = s.tokens := by
+  obtain ⟨hpos, _, b, hb, rfl⟩ := burn_step_ok hs
+  obtain ⟨e1, e2, e3, e4, e5⟩ := burn_ok hb
+  exact ⟨hpos, e1, e2, e3, by simp [burnedOf, getD_set_self], e4, e5, rfl⟩
+
+/-! ### 5. The fee is split between the fee pool and burning; the module account keeps nothing -/
+
+/-- **C09(5a)** `feeHandler`: the fee leaves the payer, `tax` of it reaches the fee collector,
+`fee - tax` is burned, and the token module account ends where it started -/
+theorem fee_split (s s' : State) (payer : Addr) (d : String) (fee : Nat)
+    (h : feeHandler s payer d fee = .ok s') (hp1 : payer ≠ TM) (hp2 : payer ≠ FC) :
+    ∃ tax burned, fee = tax + burned ∧
+      balOf s' payer d + fee = balOf s payer d ∧
+      balOf s' FC d = balOf s FC d + tax ∧
+      supplyOf s' d = supplyOf s d - burned ∧
+      balOf s' TM d = balOf s TM d ∧
+      (∀ a' d', (a', d') ≠ (payer, d) → (a', d') ≠ (TM, d) → (a', d') ≠ (FC, d) → balOf s' a' d' = balOf s a' d') ∧
+      (∀ d', d ≠ d' → supplyOf s' d' = supplyOf s d') := by
+  obtain ⟨tax, b', ht, _, he, rfl⟩ := feeHandler_ok h
+  exact ⟨tax, fee - tax, by omega, he.payer_ hp1 hp2, he.fc hp1 hp2, he.sup_self, he.tm hp1, he.others, he.sup_other⟩
+
+/-- the token module account is untouched by a fee deduction -/
+theorem deductFee_module_zero {s s1 : State} {payer fee} (h1 : deductFee s payer fee = .ok s1) (hp : payer ≠ TM)
+    (d : String) : balOf s1 TM d = balOf s TM d := by
+  obtain ⟨fd, n, tax, b', _, _, he, rfl⟩ := deductFee_ok h1
+  by_cases hk : fd = d
+  · subst hk; exact he.tm hp
+  · refine he.others TM d ?_ ?_ ?_
+    · intro e; exact hp (congrArg Prod.fst e).symm
+    · intro e; exact hk (congrArg Prod.snd e).symm
+    · intro e; exact hk (congrArg Prod.snd e).symm
+
+/-- **C09(5b)** an accepted issue leaves nothing in (and takes nothing from) the module account -/
+theorem issue_module_account_zero (s s' : State) (owner symbol name minUnit : String) (scale init max : Nat)
+    (mintable : Bool) (hs : step s (.issue owner symbol name minUnit scale init max mintable) = .ok s')
+    (hp : owner ≠ TM) (d : String) : balOf s' TM d = balOf s TM d := by
+  obtain ⟨_, _, s1, h1, _, _, rfl⟩ := issue_ok hs
+  rw [← deductFee_module_zero h1 hp d]
+  simp only [addIssued, issuedToken, balOf]
+  exact balOf_mint_other _ _ _ _ _ _ (by intro e; cases e; exact hp rfl)
+
+/-- **C09(5c)** … and so does an accepted mint to anyone but the module account itself -/
+theorem mint_module_account_zero (s s' : State) (owner to denom : String) (amount : Int)
+    (hs : step s (.mint owner to denom amount) = .ok s') (hp : owner ≠ TM) (hr : rcptOf owner to ≠ TM)
+    (d : String) : balOf s' TM d = balOf s TM d := by
+  obtain ⟨_, _, sym, s1, _, h1, h2⟩ := mint_ok hs
+  obtain ⟨_, _, _, _, _, rfl⟩ := mintChecked_ok h2
+  rw [← deductFee_module_zero h1 hp d]
+  simp only [balOf]
+  exact balOf_mint_other _ _ _ _ _ _ (by intro e; exact hr (congrArg Prod.fst e))
+
+/-- **C09(5d)** the fee of an accepted issue: charged to the owner in the fee denomination,
+split into tax (to the fee collector) and burn, nothing else moves in that denomination -/
+theorem issue_fee_split (s s' : State) (owner symbol name minUnit : String) (scale init max : Nat)
+    (mintable : Bool) (hs : step s (.issue owner symbol name minUnit scale init max mintable) = .ok s')
+    (hp1 : owner ≠ TM) (hp2 : owner ≠ FC) :
+    ∃ fd, ∃ fee tax : Nat, issueFee s symbol.length = .ok (fd, (fee : Int)) ∧ tax ≤ fee ∧
+      (fd ≠ minUnit →
+        balOf s' owner fd + fee = balOf s owner fd ∧ balOf s' FC fd = balOf s FC fd + tax ∧
+        supplyOf s' fd = supplyOf s fd - (fee - tax)) := by
+  obtain ⟨_, _, s1, h1, _, _, rfl⟩ := issue_ok hs
+  obtain ⟨fd, n, tax, b', hf, ht, he, rfl⟩ := deductFee_ok h1
+  refine ⟨fd, n, tax, hf, ht, ?_⟩
+  intro hne
+  simp only [addIssued, issuedToken, balOf, supplyOf]
+  refine ⟨?_, ?_, ?_⟩
+  · rw [balOf_mint_other _ _ _ _ _ _ (by intro e; cases e; exact hne rfl)]
+    exact he.payer_ hp1 hp2
+  · rw [balOf_mint_other _ _ _ _ _ _ (by intro e; cases e; exact hne rfl)]
+    exact he.fc hp1 hp2
+  · rw [supplyOf_mint_other _ _ _ _ _ (Ne.symm hne)]
+    exact he.sup_self
+
 end Irismod.Props.C09
